@@ -120,6 +120,7 @@ type Engine struct {
 	specAxioms []string
 	ghosts     map[string]*synth
 	useStreq   bool
+	loopEntry  []*State
 }
 
 func newEngine(w *World, pk *Pkg, c *Contract) *Engine {
@@ -400,13 +401,16 @@ func (e *Engine) rangeFact(term string, t types.Type) string {
 			implies(eq(sx("l_ref", term), e.izero()), eq(sx("l_cap", term), e.izero())))
 	case *types.Pointer, *types.Map, *types.Chan:
 		return e.le(e.izero(), term)
+	case *types.Interface:
+		// type ids and payload ids are non-negative; the nil interface is (0, 0)
+		return and(sx("<=", "0", sx("i_tid", term)), sx("<=", "0", sx("i_val", term)))
 	case *types.Struct:
 		var fs []string
 		sn := e.sortOf(t)
 		for i := 0; i < u.NumFields(); i++ {
 			f := u.Field(i)
 			switch f.Type().Underlying().(type) {
-			case *types.Basic, *types.Slice, *types.Pointer, *types.Map:
+			case *types.Basic, *types.Slice, *types.Pointer, *types.Map, *types.Interface:
 				fs = append(fs, e.rangeFact(sx(fieldAcc(sn, f.Name(), i), term), f.Type()))
 			}
 		}
@@ -494,9 +498,30 @@ func (e *Engine) nameTerm(hint, sort, term string) string {
 }
 
 func (e *Engine) havocAll(st *State) {
+	// the ghost state of the abstract writer is changed only by writes the analysed code performs itself
+	// (assumption, listed: code reached through unknown calls does not write to the output writer)
+	keep := map[string]string{}
+	for g, srt := range map[string]string{"W_out": e.heapSort("W_out"), "W_failed": "(Array Int Bool)", "W_err": "(Array Int Ifc)"} {
+		if srt != "" {
+			keep[g] = e.heapGet(st, g, srt)
+		}
+	}
+	// `opt stable T1 T2`: fields of the (package-private) struct types listed are not reachable by unknown code
+	// (assumption, listed in the evidence)
+	if e.c != nil {
+		for _, tn := range strings.Fields(e.c.Opts["stable"]) {
+			pfx := "F_" + mangle(e.c.Pkg+"."+tn) + "_"
+			for k := range e.sortDone {
+				if name, ok := strings.CutPrefix(k, "heap:"); ok && strings.HasPrefix(name, pfx) {
+					keep[name] = e.heapGet(st, name, e.sortDone[k])
+				}
+			}
+			e.stubsUsed["fields of the package-private type "+tn+" are not modified by code reached through interface methods or function values (opt stable)"] = true
+		}
+	}
 	e.nepoch++
 	st.epoch = e.nepoch
-	st.heaps = map[string]string{}
+	st.heaps = keep
 	nt := e.fresh("top", e.isort())
 	e.assume("true", e.le(st.top, nt))
 	st.top = nt
